@@ -6,7 +6,7 @@ from symx.run import Case
 PROPERTY = "C15"
 META = dict(
     level="model_checking",
-    bounds="all write sequences of length <= 3 (quick) / <= 4 (thorough) over a menu of 11 write operations on a 3x3 container (dense 2-D blocks by index "
+    bounds="all write sequences of length <= 3 (quick) / <= 4 (thorough) over a menu of 12 write operations on a 3x3 container, plus every history of length <= 2 that involves a slice key (6 further slice forms: open-ended, negative, int row with slice columns) on 3x3, 2x4 and 4x2 containers (dense 2-D blocks by index "
            "arrays / slices / ints, 1-D row, scalar, repeated indices, scipy-sparse value, nested CooMatrix with its own writes, None, and three kinds of "
            "inconsistent block shapes), with SYMBOLIC block values; after every write all conversions (toarray, tocoo, tocsr, tocsc, asformat) are compared "
            "with the dense accumulation.  The property's 'length 0..40' is cut: each write is independent of the container's content (argued, not proved).",
@@ -15,50 +15,64 @@ META = dict(
     trusted_base=["SymMat stub for scipy sparse arrays (duplicates summed)"],
 )
 
-M, N = 3, 3
+SHAPES = [(3, 3), (2, 4), (4, 2)]
 
 MENU = ["dense22", "slice22", "row13", "scalar", "dup_rows", "full_slice", "sparse22", "nested22", "none", "bad_shape_23", "bad_col_vec", "bad_nested"]
+MENU_SLICES = ["slice22", "full_slice", "open_slices", "neg_slices", "int_row_slice_cols", "dense22"]
 
 
 def _apply(h, coo, ref, op, k):
     from cardillo.utility.coo_matrix import CooMatrix
+    M, N = coo.shape
     v = lambda name, *sh: (h.mat(f"v{k}{name}", *sh) if len(sh) == 2 else (h.vec(f"v{k}{name}", sh[0]) if sh else h.real(f"v{k}{name}")))
     bad = False
     if op == "dense22":
-        r, c = np.array([0, 2]), np.array([1, 2])
+        r, c = np.array([0, M - 1]), np.array([1, N - 1])
         val = v("a", 2, 2)
         key = (r, c)
         blocks = [(r, c, val)]
     elif op == "slice22":
         val = v("a", 2, 2)
-        key = (slice(0, 2), slice(1, 3))
-        blocks = [(np.array([0, 1]), np.array([1, 2]), val)]
+        key = (slice(0, 2), slice(N - 2, N))
+        blocks = [(np.array([0, 1]), np.array([N - 2, N - 1]), val)]
+    elif op == "open_slices":
+        val = v("a", M - 1, N - 1)
+        key = (slice(1, None), slice(None, N - 1))
+        blocks = [(np.arange(1, M), np.arange(0, N - 1), val)]
+    elif op == "neg_slices":
+        val = v("a", 2, 2)
+        key = (slice(-2, None), slice(-2, None))
+        blocks = [(np.array([M - 2, M - 1]), np.array([N - 2, N - 1]), val)]
+    elif op == "int_row_slice_cols":
+        val = v("a", N)
+        key = (M - 1, slice(None))
+        blocks = [(np.array([M - 1]), np.arange(N), val.reshape(1, N))]
     elif op == "row13":
-        val = v("a", 3)
-        key = (1, np.array([0, 1, 2]))
-        blocks = [(np.array([1]), np.array([0, 1, 2]), val.reshape(1, 3))]
+        val = v("a", N)
+        key = (1, np.arange(N))
+        blocks = [(np.array([1]), np.arange(N), val.reshape(1, N))]
     elif op == "scalar":
         val = v("a")
-        key = (2, 0)
-        blocks = [(np.array([2]), np.array([0]), h.arr([[val]]))]
+        key = (M - 1, 0)
+        blocks = [(np.array([M - 1]), np.array([0]), h.arr([[val]]))]
     elif op == "dup_rows":
-        r, c = np.array([0, 0]), np.array([1, 2])
+        r, c = np.array([0, 0]), np.array([1, N - 1])
         val = v("a", 2, 2)
         key = (r, c)
         blocks = [(r, c, val)]
     elif op == "full_slice":
-        val = v("a", 3, 3)
+        val = v("a", M, N)
         key = (slice(None), slice(None))
-        blocks = [(np.arange(3), np.arange(3), val)]
+        blocks = [(np.arange(M), np.arange(N), val)]
     elif op == "sparse22":
-        r, c = np.array([1, 2]), np.array([0, 1])
+        r, c = np.array([1, M - 1]), np.array([0, 1])
         dense = v("a", 2, 2)
         dense[0, 1] = 0.0
         val = h.sparse(dense)
         key = (r, c)
         blocks = [(r, c, dense)]
     elif op == "nested22":
-        r, c = np.array([0, 1]), np.array([0, 2])
+        r, c = np.array([0, 1]), np.array([0, N - 1])
         inner = CooMatrix((2, 2))
         a, b = v("a", 2, 2), v("b", 1, 2)
         inner[np.array([0, 1]), np.array([0, 1])] = a
@@ -73,7 +87,7 @@ def _apply(h, coo, ref, op, k):
     elif op == "bad_shape_23":
         val, key, blocks, bad = v("a", 2, 3), (np.array([0, 1]), np.array([0, 1])), [], True
     elif op == "bad_col_vec":
-        val, key, blocks, bad = v("a", 3), (np.array([0, 1, 2]), 1), [], True
+        val, key, blocks, bad = v("a", M), (np.arange(M), 1), [], True
     elif op == "bad_nested":
         inner = CooMatrix((2, 3))
         inner[np.array([0]), np.array([0])] = v("a", 1, 1)
@@ -93,8 +107,9 @@ def _apply(h, coo, ref, op, k):
                     ref[ri, cj] = ref[ri, cj] + blk[i, j]
 
 
-def history(h, ops=()):
+def history(h, ops=(), shape=(3, 3)):
     from cardillo.utility.coo_matrix import CooMatrix
+    M, N = shape
     coo = CooMatrix((M, N))
     ref = np.zeros((M, N), dtype=object if h.sym else float)
     h.eq("empty container converts to the zero matrix", np.asarray(coo.toarray()), ref)
@@ -138,18 +153,24 @@ def cases(tier, seed):
         l3 = [hh for hh in hist if len(hh) == 3]
         keep = set(int(i) for i in rng.choice(len(l3), size=len(l3) // 3, replace=False))
         hist = [hh for hh in hist if len(hh) < 3] + [hh for i, hh in enumerate(l3) if i in keep]
+    hist = [((3, 3), hh) for hh in hist]
+    # non-square containers: every history of length <= 2 over the full menu plus the slice-key menu
+    for shp in SHAPES[1:]:
+        menu = MENU + [m for m in MENU_SLICES if m not in MENU]
+        hist += [(shp, ())] + [(shp, hh) for n in (1, 2) for hh in itertools.product(menu, repeat=n) if n == 1 or set(hh) & set(MENU_SLICES)]
+    hist += [((3, 3), hh) for n in (1, 2) for hh in itertools.product(MENU_SLICES, repeat=n) if set(hh) - set(MENU)]
     # group histories into batches to amortise process start-up
     B = 40
     for b in range(0, len(hist), B):
         chunk = hist[b:b + B]
-        cs.append(Case(f"histories/{b // B:03d}", batch, dict(chunk=[list(c) for c in chunk]), timeout=30, sentinel=False, hard=900))
+        cs.append(Case(f"histories/{b // B:03d}", batch, dict(chunk=[(list(shp), list(c)) for shp, c in chunk]), timeout=30, sentinel=False, hard=900))
     return cs
 
 
 def batch(h, chunk=()):
-    for ops in chunk:
-        sub = _Prefix(h, "/".join(ops) or "empty")
-        history(sub, tuple(ops))
+    for shp, ops in chunk:
+        sub = _Prefix(h, f"{shp[0]}x{shp[1]}:" + ("/".join(ops) or "empty"))
+        history(sub, tuple(ops), tuple(shp))
 
 
 class _Prefix:
@@ -181,7 +202,7 @@ class _Prefix:
 
 
 def coverage_extra(cases, results):
-    hist = [tuple(ops) for c in cases if c.id.startswith("histories/") for ops in c.params["chunk"]]
+    hist = [tuple(ops) for c in cases if c.id.startswith("histories/") for _, ops in c.params["chunk"]]
     return dict(states=sum(len(x) + 1 for x in hist), transitions=sum(len(x) for x in hist), histories=len(hist),
                 exhaustive=False, explanation="states = container states compared with the dense accumulation (one per write, plus the empty container); "
                 "transitions = writes executed through the real __setitem__; complete for length <= 2, a seeded third of length 3 in the quick tier",
